@@ -26,7 +26,14 @@ type Pool struct {
 }
 
 func New(options Options) *Pool {
+	// Until the first Run the pool behaves like a stopped one.
+	ctx, cancel := context.WithCancel(context.Background())
+	cancel()
+
 	return &Pool{
+		ctx:    ctx,
+		cancel: cancel,
+
 		opts: Options{
 			NumWorkers:   max(options.NumWorkers, minNumWorkers),
 			SendDuration: max(options.SendDuration, minSendDuration),
